@@ -29,6 +29,11 @@ fn main() {
         i += 1;
     }
     cvx::choicesat::install_quiet_panic_hook();
+    if args[1] == "c16-scenario" {
+        let pad: usize = args.get(3).and_then(|x| x.parse().ok()).unwrap_or(0);
+        let big = args.get(4).map(|x| x == "1").unwrap_or(false);
+        std::process::exit(cvx::checks::c16_pipes::scenario_main(args.get(2).map(|s| s.as_str()).unwrap_or("readall"), pad, big));
+    }
     // self-checks on every invocation
     match cvx::dpll::self_check() {
         Ok(_) => {}
@@ -57,6 +62,7 @@ fn main() {
         p @ ("C01" | "C02" | "C03" | "C04") => cvx::checks::static_checks::run(p, tier),
         "C07" => cvx::checks::static_checks::run_c07(tier),
         "C18" => cvx::checks::c18::run(tier),
+        "C16" => cvx::checks::c16::run(tier),
         "C15" => cvx::checks::c15::run(tier),
         "C14" => cvx::checks::c14::run(tier),
         "C13" => cvx::checks::c13::run(tier),
